@@ -17,7 +17,8 @@ RULE = ("class A: (Hypothesis valid multi-line script, insertion point chosen by
         "oracle: parse False, error 'line L:', error_pos[:2]==(L, byte column) computed from the assembled text, "
         "error_pos[2]==byte length (non-lexical), unchanged under tail replacement. class B: other single-edit mutants: "
         "reported offset >= offset of the reference's first offending token, and unchanged when the text after the token at the "
-        "reported position is replaced. Non-trivial = insertion line >= 2 and a multi-byte character or comment before it.")
+        "reported position is replaced. Both classes: the same report from a Parser that parsed two other scripts (one rejected, one "
+        "accepted, other line structure) just before. Non-trivial = insertion line >= 2 and a multi-byte character or comment before it.")
 
 JUNK = [b"@", b"%", b"^x", b"&&", b"\xc3\xa9", b"=", b"!", b"\xe2\x82\xac", b"~a", b"'q'", b"*", b"-1", b"/", b'"unterminated']
 EXT_CMDS = {"fileinto": b"fileinto", "reject": b"reject", "vacation": b"vacation", "imap4flags": b"setflag", "variables": b"set"}
@@ -115,12 +116,34 @@ def offset_of(text, pos):
     return off + col - 1
 
 
+# what a long-lived Parser has parsed before the script under test: one rejected and
+# one accepted script whose lines start at other offsets (README usage: one Parser,
+# many scripts)
+DECOYS = [b"# one\r\n# two\n\n   keep;\n\tstop @\n\n\n", b"keep;\n\n\n\n"]
+
+
+def reused_outcome(text):
+    p = impl.Parser()
+    for d in DECOYS:
+        impl.parse_outcome(d, parser=p)
+    return impl.parse_outcome(text, parser=p)
+
+
+def history_dependence(text, o, label):
+    """The same script given to a Parser that has parsed other scripts before."""
+    o2 = reused_outcome(text)
+    if o2.exc is None and o.exc is None and o2.verdict is False and o.verdict is False and (o2.error_pos != o.error_pos or o2.error != o.error):
+        return [("%s|position-depends-on-what-the-parser-parsed-before" % label,
+                 {"text": text, "fresh_parser": o.summary(), "parser_that_parsed_other_scripts_before": o2.summary(), "earlier_scripts": DECOYS})]
+    return []
+
+
 def check_a(prefix, tok, rest, tails, cls):
     """-> list of (bucket, detail)."""
     text = prefix + tok + rest
     L, C = linecol(prefix)
     o = impl.parse_outcome(text)
-    out = []
+    out = history_dependence(text, o, "A|%s" % cls)
     base = {"text": text, "class": cls, "token": tok, "expected": [L, C, len(tok)], "impl": o.summary()}
     if o.exc is not None:
         return out  # C02
@@ -216,7 +239,7 @@ def check_b(text, tails):
     ep = o.error_pos
     if not (isinstance(ep, tuple) and len(ep) == 3):
         return r, []
-    out = []
+    out = history_dependence(text, o, "B")
     got = offset_of(text, ep)
     if r.bad < r.ntok:
         first = r.tokens[r.bad].off
